@@ -212,7 +212,13 @@ def run(ctx):
     ctx.prove("C29/Props.v")
     gmode = H.detect_group_mode(vf.REPO)
     ctx.cov["group_rule_in_code"] = gmode
-    ctx.cov["redirect_lookup_in_code"] = H.detect_redirect_mode(vf.REPO)
+    try:
+        ctx.cov["redirect_lookup_in_code"] = H.detect_redirect_mode(vf.REPO)
+    except ValueError as e:
+        # the theorems speak about the chained lookup only: the tie is broken, but keep going so that the
+        # judge can show concrete failing histories (call resolution / answers at depth >= 3)
+        ctx.cov["redirect_lookup_in_code"] = "unrecognised"
+        ctx.broken.append("correspondence:%s" % e)
     bids = builtin_ids()
     nh = ctx.n(80, 500)
     items = [(ctx.rng.randrange(1 << 30), ctx.rng.choice([4, 8, 12, 16]), gmode, bids) for _ in range(nh)]
